@@ -1,13 +1,17 @@
 package mon
 
 import (
+	"context"
 	"fmt"
 	"math/rand"
+	"os"
 	"strconv"
 	"strings"
+	"time"
 
 	"github.com/herohde/morlock/pkg/board"
 	"github.com/herohde/morlock/pkg/engine"
+	"github.com/herohde/morlock/pkg/engine/uci"
 
 	"verif/adapt"
 	"verif/fw"
@@ -149,7 +153,7 @@ func c10Session(c *fw.Ctx, r *rand.Rand, idx int) {
 	}
 	n := 2 + r.Intn(10)
 	for step := 0; step < n; step++ {
-		kind := r.Intn(13)
+		kind := r.Intn(14)
 		next := cur
 		line := ""
 		name := ""
@@ -246,6 +250,25 @@ func c10Session(c *fw.Ctx, r *rand.Rand, idx int) {
 				}
 			}
 			line, name = next.cmd(false), "case-flip"
+		case 12: // an option set between two position commands is not a position command: the game stays
+			opt := []string{
+				fmt.Sprintf("setoption name Hash value %d", []int{0, 1, 2, 4, 8}[r.Intn(5)]),
+				fmt.Sprintf("setoption name Noise value %d", []int{0, 5, 50}[r.Intn(3)]),
+				fmt.Sprintf("setoption name Depth value %d", 1+r.Intn(3)),
+				"setoption name OwnBook value false",
+			}[r.Intn(4)]
+			s.send(opt)
+			if _, ok := s.sync(); !ok {
+				c.Violate("position:no-readyok", "isready unanswered after %q: %s", opt, what())
+				s.shutdown(true)
+				return
+			}
+			c.Count("cmd_setoption-in-between", 1)
+			if !compareEngine(c, s, cur, fmt.Sprintf("after %q (no position command since): %s", opt, what())) {
+				s.shutdown(true)
+				return
+			}
+			continue
 		default: // a search in between must not disturb the game
 			m := s.send("go depth 1")
 			s.waitLine(m, isBestmove, uciWatchdog)
@@ -309,25 +332,133 @@ func c10Session(c *fw.Ctx, r *rand.Rand, idx int) {
 	}
 }
 
+// c10Stdin wires an engine the way cmd/*/main.go does (ReadStdinLines -> uci.NewDriver) with the process's
+// standard input replaced by a pipe, and sends it position lines of real-world and extreme lengths: long games
+// (hundreds to 1500 plies on one line, i.e. far beyond any reader buffer), CRLF line ends, a last line without
+// newline. After each line the engine's game must be the one the line describes.
+func c10Stdin(c *fw.Ctx, r *rand.Rand, idx int) {
+	ctx := context.Background()
+	pr, pw, err := os.Pipe()
+	if err != nil {
+		return
+	}
+	old := os.Stdin
+	os.Stdin = pr
+	defer func() { os.Stdin = old }()
+	rc := &recipes[[]int{0, 0, 1, 2, 3}[r.Intn(5)]]
+	e := rc.newEngine(ctx, engine.Options{Depth: 1, Hash: 0}, 0, nil)
+	in := engine.ReadStdinLines(ctx)
+	eol := "\n"
+	if r.Intn(3) == 0 {
+		eol = "\r\n"
+	}
+	fmt.Fprint(pw, "uci"+eol)
+	select {
+	case l := <-in:
+		if l != "uci" {
+			c.Violate("position:stdin", "first line %q read from standard input as %q", "uci", l)
+			return
+		}
+	case <-time.After(uciWatchdog):
+		c.Inconclusive("stdin reader did not deliver the first line")
+		return
+	}
+	d, out := uci.NewDriver(ctx, e, in)
+	ready := make(chan struct{}, 64)
+	closed := make(chan struct{})
+	go func() {
+		defer close(closed)
+		for l := range out {
+			if l == "readyok" {
+				ready <- struct{}{}
+			}
+		}
+	}()
+	s := &uciSession{rc: rc, e: e, d: d}
+	sync := func() bool {
+		fmt.Fprint(pw, "isready"+eol)
+		select {
+		case <-ready:
+			return true
+		case <-time.After(uciWatchdog):
+			return false
+		}
+	}
+	starts := gen.Starts()
+	var cur lineGame
+	for step := 0; step < 3+r.Intn(3); step++ {
+		// a long game: both sides mostly shuffle, so that it neither ends nor runs out of moves
+		plies := []int{30, 300, 700, 1000, 1500}[r.Intn(5)]
+		if step > 0 && r.Intn(2) == 0 && len(cur.game().Cur.LegalMoves()) > 0 {
+			// extension of the previous (long) line
+			h := gen.Playout(r, cur.game().Cur, 1+r.Intn(4), gen.Shuffly)
+			cur = lineGame{cur.start, append(append([]ref.Move{}, cur.moves...), h.Moves...)}
+		} else {
+			h := gen.Playout(r, starts[[]int{0, 0, 1, 5}[r.Intn(4)]], plies, gen.Shuffly)
+			cur = lineGame{h.Start, h.Moves}
+		}
+		line := cur.cmd(r.Intn(2) == 0)
+		fmt.Fprint(pw, line+eol)
+		if !sync() {
+			c.Violate("position:no-readyok", "isready unanswered after a position line of %d bytes (%d plies) on standard input\n%s", len(line), len(cur.moves), stacks())
+			break
+		}
+		c.Count("stdin_lines", 1)
+		if len(line) > 4096 {
+			c.Count("stdin_lines_over_4k", 1)
+		}
+		if len(line) > 65536/8 {
+			c.Count("stdin_lines_over_8k", 1)
+		}
+		c.Distinct(line)
+		head := line
+		if len(head) > 120 {
+			head = head[:120] + "..."
+		}
+		if !compareEngine(c, s, cur, fmt.Sprintf("engine %s fed through standard input (line ends %q), after a position line of %d bytes, %d plies: %s", rc.name, eol, len(line), len(cur.moves), head)) {
+			break
+		}
+	}
+	// the last line has no newline: end of input must still deliver it and then shut the driver down
+	fmt.Fprint(pw, "isready")
+	pw.Close()
+	select {
+	case <-closed:
+	case <-time.After(uciWatchdog):
+		c.Violate("position:stdin-eof", "driver did not shut down at the end of standard input\n%s", stacks())
+	}
+	select {
+	case <-ready:
+	default:
+		c.Violate("position:stdin-eof", "a last line without newline (isready) was not delivered before the end of input")
+	}
+	pr.Close()
+}
+
 func init() {
 	fw.Register(&fw.Monitor{
 		ID:          "C10",
 		Level:       "exploration",
 		Race:        true,
 		Technique:   "runtime reference-model monitor: after every position/ucinewgame command (synchronised by isready/readyok) the engine's game is compared with the game the command describes, built from scratch, and probed for its future repetition behaviour",
-		Rule:        "sessions of 3-13 commands: fresh startpos/FEN lines with 0-40 moves, extension by 1-4 moves, verbatim repeat, odd white space, truncation, different last move, respelling startpos<->fen, ucinewgame, FEN whose clock digits extend the previous FEN, searches in between; after each command: Engine.Position() vs oracle FEN and full board snapshot (position, side, hash, clocks, ply, castled flags, last moves, result) vs a board set up from scratch; at the end the line is extended by reversible shuffles until the oracle counts three occurrences: the engine's game must report the draw at that ply and not earlier; distinct = distinct session transcripts",
+		Rule:        "sessions of 3-13 commands: fresh startpos/FEN lines with 0-40 moves, extension by 1-4 moves, verbatim repeat, odd white space, truncation, different last move, respelling startpos<->fen, ucinewgame, FEN whose clock digits extend the previous FEN, searches and option changes (Hash, Noise, Depth, OwnBook) in between; after each command: Engine.Position() vs oracle FEN and full board snapshot (position, side, hash, clocks, ply, castled flags, last moves, result) vs a board set up from scratch; at the end the line is extended by reversible shuffles until the oracle counts three occurrences: the engine's game must report the draw at that ply and not earlier; stdin: an engine wired like cmd/*/main.go (ReadStdinLines -> driver) with standard input replaced by a pipe, position lines of 30-1500 plies (up to ~8 KiB), LF/CRLF, last line without newline; distinct = distinct session transcripts",
 		Assumptions: []string{"commands are well-formed position lines (malformed ones are C16's subject)"},
 		Setup:       validateOracle,
 		Timeout:     minutes(15, 120),
 		Cases: func(tier string, seed int64) []fw.Case {
-			return mkCases(nil, "sessions", 64, seed, pick(tier, 5, 300))
+			l := mkCases(nil, "sessions", 64, seed, pick(tier, 5, 300))
+			return mkCases(l, "stdin", 8, seed, pick(tier, 3, 60))
 		},
 		Floors: func(string) map[string]int64 {
-			return map[string]int64{"sessions": 200, "state_checks": 1500, "cmd_extension": 100, "cmd_repeat": 50, "cmd_whitespace": 50, "cmd_truncation": 50, "cmd_fen-prefix-trap": 50, "cmd_after-ucinewgame": 50, "cmd_fen-of-current": 50, "cmd_case-flip": 30, "repetition_probes_reached": 100}
+			return map[string]int64{"sessions": 200, "state_checks": 1500, "cmd_extension": 100, "cmd_repeat": 50, "cmd_whitespace": 50, "cmd_truncation": 50, "cmd_fen-prefix-trap": 50, "cmd_after-ucinewgame": 50, "cmd_fen-of-current": 50, "cmd_case-flip": 30, "cmd_setoption-in-between": 50, "repetition_probes_reached": 100, "stdin_lines": 40, "stdin_lines_over_4k": 10}
 		},
 		Run: func(c *fw.Ctx, cs fw.Case) {
 			r := cs.Rand()
 			for i := 0; i < cs.N; i++ {
+				if cs.Kind == "stdin" {
+					c10Stdin(c, r, cs.Idx*1000+i)
+					continue
+				}
 				c10Session(c, r, cs.Idx*1000+i)
 			}
 		},
